@@ -179,13 +179,14 @@ def _view_rows(x, dim):
 class C11(System):
     nontrivial_per_config = False
 
-    def __init__(self, name, mode, depth_q, depth_t, s_kinds, o_kinds, alphabet='hist', quick_pairs=None, tcap_q=None, tcap_t=None):
+    def __init__(self, name, mode, depth_q, depth_t, s_kinds, o_kinds, alphabet='hist', quick_pairs=None, only_pairs=None, tcap_q=None, tcap_t=None):
         self.name = name
         self.mode = mode            # 'eager' | 'lazy'
         self._dq, self._dt = depth_q, depth_t
         self.s_kinds, self.o_kinds = s_kinds, o_kinds
         self.alphabet = alphabet    # 'hist' | 'units'
         self.quick_pairs = quick_pairs
+        self.only_pairs = only_pairs
         self._tq, self._tt = tcap_q, tcap_t
 
     # ---- engine plumbing ----------------------------------------------------------------------
@@ -201,6 +202,7 @@ class C11(System):
 
     def configs(self, tier, seed):
         cfgs = [(sk, ok) for sk in self.s_kinds for ok in self.o_kinds]
+        if self.only_pairs is not None: cfgs = [c for c in cfgs if c in self.only_pairs]
         if tier == 'quick' and self.quick_pairs is not None:
             cfgs = [c for c in cfgs if c in self.quick_pairs]
         k = seed % len(cfgs)
@@ -934,8 +936,11 @@ _PAIRS_LAZY = (('l', 'l'), ('l', 'g'), ('l', 'm'), ('l', 'm3'), ('m', 'l'), ('m'
 SYSTEMS = [
     # every unit / every write door, applied to every stream kind at depth 1 and after one structural step at depth 2
     C11('c11.units', 'eager', 2, 2, ('l', 'g', 'm'), ('l',), alphabet='units'),
-    # histories with all views (whole arrays AND keyed items) re-read, and thereby cached, after every action
-    C11('c11.eager', 'eager', 3, 4, ('l', 'g', 'm', 'ls'), ('l', 'g', 'm', 'm3', 's'), quick_pairs=_PAIRS_EAGER, tcap_q=120, tcap_t=900),
-    # histories in which views / key memos are only created by explicit read actions (cache-creation order is explored)
-    C11('c11.lazy', 'lazy', 3, 4, ('l', 'm', 'ls'), ('l', 'g', 'm', 'm3'), quick_pairs=_PAIRS_LAZY, tcap_q=120, tcap_t=900),
+    # histories with all views (whole arrays AND keyed items) re-read, and thereby cached, after every action; thorough: all 20 start pairs
+    C11('c11.eager', 'eager', 3, 3, ('l', 'g', 'm', 'ls'), ('l', 'g', 'm', 'm3', 's'), quick_pairs=_PAIRS_EAGER, tcap_q=120, tcap_t=600),
+    # histories in which views / key memos are only created by explicit read actions (cache-creation order is explored); thorough: all 12 pairs
+    C11('c11.lazy', 'lazy', 3, 3, ('l', 'm', 'ls'), ('l', 'g', 'm', 'm3'), quick_pairs=_PAIRS_LAZY, tcap_q=120, tcap_t=600),
+    # one level deeper from two start pairs each (quick: depth 1, a subset of the systems above)
+    C11('c11.eager4', 'eager', 1, 4, ('l', 'm'), ('g', 'm3'), quick_pairs=(('l', 'g'), ('m', 'm3')), only_pairs=(('l', 'g'), ('m', 'm3')), tcap_t=500),
+    C11('c11.lazy4', 'lazy', 1, 4, ('l', 'ls'), ('g', 'm3'), quick_pairs=(('l', 'g'), ('ls', 'm3')), only_pairs=(('l', 'g'), ('ls', 'm3')), tcap_t=500),
 ]
